@@ -79,8 +79,9 @@ Section Opt.
     t_upd_edge t e lim = if less (edist e) lim then Some (edist e) else None.
   Hypothesis CellExact : forall c lim,
     t_upd_cell t c lim = if less (cdist c) lim then Some (cdist c) else None.
-  (** the permitted error does not change distances (MaxError = 0) *)
-  Hypothesis ErrZero : forall d, sub d (o_max_error o) = d.
+  (** subtracting the permitted error never makes a distance worse: sub d maxError <= d *)
+  Hypothesis SubLe : forall d, less d (sub d (o_max_error o)) = false.
+  Notation err := (o_max_error o).
 
   Notation madd := (maybe_add_result D ops o t false).
   Notation pedges := (process_edges D ops o t false).
@@ -120,8 +121,8 @@ Section Opt.
 
   (** *** addResult / maybeAddResult *)
   Lemma add_result_limit st r :
-    s_limit (add_result D ops o st r) = if o_max_results o =? 1 then r_dist r else s_limit st.
-  Proof. unfold add_result. destruct (o_max_results o =? 1); cbn; [apply ErrZero|reflexivity]. Qed.
+    s_limit (add_result D ops o st r) = if o_max_results o =? 1 then sub (r_dist r) err else s_limit st.
+  Proof. unfold add_result. destruct (o_max_results o =? 1); reflexivity. Qed.
   Lemma add_result_results st r : s_results (add_result D ops o st r) = r :: s_results st.
   Proof. unfold add_result. destruct (o_max_results o =? 1); reflexivity. Qed.
   Lemma add_result_queue st r : s_queue (add_result D ops o st r) = s_queue st.
@@ -136,7 +137,7 @@ Section Opt.
       s_limit st' = s_limit st -> s_results st' = s_results st -> s_queue st' = s_queue st ->
       (s_tested st' = s_tested st \/ s_tested st' = e :: s_tested st) -> madd_outcome avoid st e st'
   | mo_add : less (edist e) (s_limit st) = true ->
-      s_limit st' = (if o_max_results o =? 1 then edist e else s_limit st) ->
+      s_limit st' = (if o_max_results o =? 1 then sub (edist e) err else s_limit st) ->
       s_results st' = mkres e :: s_results st -> s_queue st' = s_queue st ->
       (s_tested st' = s_tested st \/ s_tested st' = e :: s_tested st) -> madd_outcome avoid st e st'.
 
@@ -166,7 +167,8 @@ Section Opt.
     - apply ext_refl.
     - unfold ext. rewrite L, R, Q. repeat split; [apply (le_refl _ _ OK)|apply incl_refl|apply incl_refl].
     - unfold ext. rewrite L, R, Q. repeat split; [|apply incl_tl, incl_refl|apply incl_refl].
-      destruct (o_max_results o =? 1); [apply (less_asym _ _ OK); exact A|apply (le_refl _ _ OK)].
+      destruct (o_max_results o =? 1); [|apply (le_refl _ _ OK)].
+      eapply (le_trans _ _ OK); [apply SubLe|apply (less_asym _ _ OK); exact A].
   Qed.
 
   Lemma madd_queue avoid st e : s_queue (madd avoid st e) = s_queue st.
@@ -232,7 +234,8 @@ Section Opt.
     Definition Lim1 (st : state D) : Prop := o_max_results o = 1 -> R0 = [] ->
       (forall r, In r (s_results st) -> less (r_dist r) (s_limit st) = false) /\
       (s_results st = [] -> s_limit st = L0) /\
-      (s_results st <> [] -> exists r, In r (s_results st) /\ r_dist r = s_limit st).
+      (s_results st <> [] -> exists r, In r (s_results st) /\ s_limit st = sub (r_dist r) err /\
+         forall r', In r' (s_results st) -> less (r_dist r') (r_dist r) = false).
     Definition EI (st : state D) : Prop := Sound st /\ LimLe st /\ LimN st /\ Lim1 st.
 
     Lemma EI_madd avoid st e : P e -> EI st -> EI (madd avoid st e).
@@ -244,14 +247,19 @@ Section Opt.
       - assert (AL0 : less (edist e) L0 = true) by (eapply (lt_le_trans _ _ OK); eauto).
         unfold EI, Sound, LimLe, LimN, Lim1. rewrite L, R. split; [|split; [|split]].
         + intros r [<-|Hr]; [right; exists e; auto|apply S; exact Hr].
-        + destruct (o_max_results o =? 1); [apply (less_asym _ _ OK); exact AL0|exact Le].
+        + destruct (o_max_results o =? 1); [|exact Le].
+          eapply (le_trans _ _ OK); [apply SubLe|apply (less_asym _ _ OK); exact AL0].
         + intros K. destruct (o_max_results o =? 1) eqn:E; [apply Z.eqb_eq in E; contradiction|apply LN; exact K].
         + intros K1 R0nil. rewrite K1. cbn.
-          destruct (L1 K1 R0nil) as (B & _ & _). split; [|split].
-          * intros r [<-|Hr]; [cbn; apply (le_refl _ _ OK)|].
-            eapply (le_trans _ _ OK); [apply (less_asym _ _ OK); exact A|apply B; exact Hr].
+          destruct (L1 K1 R0nil) as (B & _ & _).
+          assert (Old : forall r, In r (s_results st) -> less (r_dist r) (edist e) = false).
+          { intros r Hr. eapply (le_trans _ _ OK); [apply (less_asym _ _ OK); exact A|apply B; exact Hr]. }
+          split; [|split].
+          * intros r [<-|Hr]; [cbn; apply SubLe|].
+            eapply (le_trans _ _ OK); [apply SubLe|apply Old; exact Hr].
           * intros; discriminate.
-          * intros _. exists (mkres e). split; [left; reflexivity|reflexivity].
+          * intros _. exists (mkres e). split; [left; reflexivity|]. split; [reflexivity|].
+            intros r' [<-|Hr']; [apply (le_refl _ _ OK)|apply Old; exact Hr'].
     Qed.
 
     Lemma EI_queue st q : EI st -> EI (set_queue D st q).
@@ -297,7 +305,7 @@ Section Opt.
     (forall b, In b q' -> less (q_dist b) (q_dist en) = false).
 
   Definition entry_ok (en : qentry D) : Prop :=
-    Vq (q_id en) /\ q_dist en = cdist (q_id en) /\ centry_ok (q_id en, q_cell en).
+    Vq (q_id en) /\ less (cdist (q_id en)) (q_dist en) = false /\ centry_ok (q_id en, q_cell en).
   Definition Qinv (st : state D) : Prop := HI (s_queue st) /\ forall en, In en (s_queue st) -> entry_ok en.
   Definition Post (st : state D) (c : icell) : Prop := forall e, In e (snd c) ->
     Done st e \/ exists en, In en (s_queue st) /\ qrep en c.
@@ -329,7 +337,7 @@ Section Opt.
       intros V Cok ((H & Q) & T & Ist). cbn. unfold enqueue. rewrite CellExact.
       destruct (less (cdist (fst ce)) (s_limit st)) eqn:E.
       - set (d' := if cons then sub (cdist (fst ce)) (o_max_error o) else cdist (fst ce)).
-        assert (Ed : d' = cdist (fst ce)) by (subst d'; destruct cons; [apply ErrZero|reflexivity]).
+        assert (Ed : less (cdist (fst ce)) d' = false) by (subst d'; destruct cons; [apply SubLe|apply (le_refl _ _ OK)]).
         set (en := mkQ d' (fst ce) (snd ce)).
         destruct (HI_push (s_queue st) en H) as [H' Mem].
         split; [|split].
@@ -444,8 +452,8 @@ Section Opt.
           assert (L1 : less (edist e) (cdist (q_id en')) = false) by (eapply (LB (q_id en', q_cell en')); eauto).
           assert (L2 : less (q_dist en') (q_dist en) = false).
           { destruct (Mem en' Hen') as [->|Hq']; [apply (le_refl _ _ OK)|apply Min; exact Hq']. }
-          rewrite <- Ken' in L1.
-          eapply (le_trans _ _ OK); [|exact L1]. eapply (le_trans _ _ OK); [exact El|exact L2].
+          eapply (le_trans _ _ OK); [|exact L1]. eapply (le_trans _ _ OK); [|exact Ken'].
+          eapply (le_trans _ _ OK); [exact El|exact L2].
         + apply (le_refl _ _ OK).
         + apply incl_refl.
     Qed.
@@ -587,22 +595,26 @@ Section Opt.
   Qed.
 
   Lemma k1_head L0 P s : o_max_results o = 1 -> EI [] L0 P s -> s_results s <> [] ->
-    exists hd tl, sort_unique ops (rev (s_results s)) = hd :: tl /\ r_dist hd = s_limit s.
+    exists hd tl, sort_unique ops (rev (s_results s)) = hd :: tl /\ In hd (s_results s) /\
+      s_limit s = sub (r_dist hd) err /\ (forall r, In r (s_results s) -> less (r_dist r) (r_dist hd) = false).
   Proof.
     intros K (_ & _ & _ & L1) NE. destruct (L1 K eq_refl) as (B & _ & Ex).
-    destruct (Ex NE) as (rs & Hrs & Ers).
+    destruct (Ex NE) as (rs & Hrs & Ers & Mrs).
     pose proof (sort_unique_sorted D ops OK (rev (s_results s))) as S.
     assert (Mem : forall c, In c (sort_unique ops (rev (s_results s))) <-> In c (s_results s)).
     { intros c. rewrite (sort_unique_in D ops OK). rewrite <- in_rev. tauto. }
     destruct (sort_unique ops (rev (s_results s))) as [|hd tl] eqn:E.
     { exfalso. apply (Mem rs). exact Hrs. }
     exists hd, tl. split; [reflexivity|].
-    assert (Hhd : less (r_dist hd) (s_limit s) = false) by (apply B, Mem; left; reflexivity).
-    destruct (proj2 (Mem rs) Hrs) as [<-|Htl]; [exact Ers|].
-    inversion S as [|? ? _ F]; subst. rewrite Forall_forall in F. specialize (F rs Htl).
-    unfold rlt, r_less in F. destruct (d_eqb ops (r_dist hd) (r_dist rs)) eqn:Ed; cbn [negb] in F.
-    - apply (eqb_spec _ OK) in Ed. congruence.
-    - rewrite Ers in F. congruence.
+    assert (Hhd : In hd (s_results s)) by (apply Mem; left; reflexivity).
+    split; [exact Hhd|].
+    assert (Eq : r_dist hd = r_dist rs).
+    { destruct (proj2 (Mem rs) Hrs) as [<-|Htl]; [reflexivity|].
+      inversion S as [|? ? _ F]; subst. rewrite Forall_forall in F. specialize (F rs Htl).
+      unfold rlt, r_less in F. destruct (d_eqb ops (r_dist hd) (r_dist rs)) eqn:Ed; cbn [negb] in F.
+      - apply (eqb_spec _ OK) in Ed. exact Ed.
+      - rewrite (Mrs hd Hhd) in F. discriminate. }
+    rewrite Eq. split; [exact Ers|exact Mrs].
   Qed.
 
   Lemma no_elements {A} (l : list A) : (forall a, ~ In a l) -> l = [].
@@ -615,7 +627,7 @@ Section Opt.
     s_queue so = [] ->
     (o_max_results o <> 1 ->
        sort_unique ops (rev (s_results so)) = sort_unique ops (rev (s_results sb))) /\
-    (o_max_results o = 1 -> s_results st = [] ->
+    (o_max_results o = 1 -> s_results st = [] -> (forall d, sub d err = d) ->
        map r_dist (truncate D o (sort_unique ops (rev (s_results so)))) =
        map r_dist (truncate D o (sort_unique ops (rev (s_results sb))))) /\
     (forall r, In r (s_results so) -> In r (s_results st) \/
@@ -636,7 +648,7 @@ Section Opt.
     - intros K. apply (sorted_set_eq D ops OK); try apply (sort_unique_sorted D ops OK).
       intros c. rewrite !(sort_unique_in D ops OK), <- !in_rev.
       rewrite (final_set R0 L0 so K EIo Inco Dno), (final_set R0 L0 sb K EIb' (proj1 (proj2 Xb)) Dnb'). tauto.
-    - intros K R0nil. rewrite !(truncate_k1 _ K).
+    - intros K R0nil ErrZero. rewrite !(truncate_k1 _ K).
       assert (R0e : R0 = []) by exact R0nil. rewrite R0e in *.
       destruct (s_results so) as [|ro lo] eqn:Ero; destruct (s_results sb) as [|rb lb] eqn:Erb.
       + reflexivity.
@@ -651,20 +663,67 @@ Section Opt.
         unfold Found in F. rewrite Erb in F. contradiction.
       + assert (NEo : s_results so <> []) by (rewrite Ero; discriminate).
         assert (NEb : s_results sb <> []) by (rewrite Erb; discriminate).
-        destruct (k1_head L0 in_index so K EIo NEo) as (ho & tlo & Eho & Mo).
-        destruct (k1_head L0 in_index sb K EIb' NEb) as (hb & tlb & Ehb & Mb).
-        rewrite Ero in Eho. rewrite Erb in Ehb. rewrite Eho, Ehb. cbn. f_equal. rewrite Mo, Mb.
+        destruct (k1_head L0 in_index so K EIo NEo) as (ho & tlo & Eho & Hho & Mo & _).
+        destruct (k1_head L0 in_index sb K EIb' NEb) as (hb & tlb & Ehb & Hhb & Mb & _).
+        rewrite Ero in Eho. rewrite Erb in Ehb. rewrite Eho, Ehb. cbn. f_equal.
+        rewrite ErrZero in Mo, Mb. rewrite <- Mo, <- Mb.
         (* both limits are the minimum over the index edges *)
         destruct EIo as (So & _ & _ & L1o). destruct EIb' as (Sb & _ & _ & L1b).
-        destruct (L1o K eq_refl) as (Bo & _ & Exo). destruct (L1b K eq_refl) as (Bb & _ & Exb).
-        destruct (Exo NEo) as (r1 & Hr1 & Er1). destruct (Exb NEb) as (r2 & Hr2 & Er2).
-        destruct (So r1 Hr1) as [[]|(e1 & P1 & -> & _)]. destruct (Sb r2 Hr2) as [[]|(e2 & P2 & -> & _)].
-        cbn in Er1, Er2.
+        destruct (L1o K eq_refl) as (Bo & _ & _). destruct (L1b K eq_refl) as (Bb & _ & _).
+        destruct (So ho Hho) as [[]|(e1 & P1 & E1 & _)]. destruct (Sb hb Hhb) as [[]|(e2 & P2 & E2 & _)].
         apply (le_antisym _ _ OK).
         * (* limit sb <= limit so *)
-          rewrite <- Er1. destruct (Dnb' e1 P1) as [N|F]; [exact N|]. apply (Bb _ F).
-        * rewrite <- Er2. destruct (Dno e2 P2) as [N|F]; [exact N|]. apply (Bo _ F).
+          rewrite Mo, E1. cbn. destruct (Dnb' e1 P1) as [N|F]; [exact N|]. apply (Bb _ F).
+        * rewrite Mb, E2. cbn. destruct (Dno e2 P2) as [N|F]; [exact N|]. apply (Bo _ F).
     - intros r Hr. destruct EIo as (So & _). destruct (So r Hr) as [H|(e & Pe & E & L)]; [left; exact H|].
       right. exists e. split; [apply IndexOK; exact Pe|split; assumption].
+  Qed.
+
+  (** *** MaxResults = 1 with any permitted error: the single result is within the error of the optimum *)
+  Lemma k1_result L0 (P : eid -> Prop) s : o_max_results o = 1 -> EI [] L0 P s -> (forall e, P e -> Done s e) ->
+    let out := truncate D o (sort_unique ops (rev (s_results s))) in
+    (s_results s = [] -> out = [] /\ forall e, P e -> less (edist e) L0 = false) /\
+    (s_results s <> [] -> exists hd, out = [hd] /\ In hd (s_results s) /\
+       forall e, P e -> less (edist e) (sub (r_dist hd) err) = false).
+  Proof.
+    intros K E Dn. cbn. rewrite (truncate_k1 _ K). split.
+    - intros Er. rewrite Er. split; [reflexivity|]. intros e Pe.
+      destruct E as (_ & _ & _ & L1). destruct (L1 K eq_refl) as (_ & Lz & _).
+      destruct (Dn e Pe) as [N|F]; [rewrite (Lz Er) in N; exact N|]. unfold Found in F. rewrite Er in F. contradiction.
+    - intros NE. destruct (k1_head L0 P s K E NE) as (hd & tl & Eh & Hh & Lh & Mh).
+      exists hd. rewrite Eh. split; [reflexivity|split; [exact Hh|]]. intros e Pe.
+      destruct (Dn e Pe) as [N|F]; [rewrite Lh in N; exact N|].
+      eapply (le_trans _ _ OK); [apply SubLe|]. apply (Mh _ F).
+  Qed.
+
+  Theorem opt_within_error_core cons avoid st :
+    s_queue st = [] -> s_tested st = [] -> s_results st = [] -> o_max_results o = 1 ->
+    let so := find_edges_optimized D ops o t x false brk cons avoid st in
+    s_queue so = [] ->
+    let out := truncate D o (sort_unique ops (rev (s_results so))) in
+    (out = [] <-> forall e, In e (all_edges x) -> less (edist e) (s_limit st) = false) /\
+    (forall r, In r out ->
+       (exists e, In e (all_edges x) /\ r = mkres e /\ less (edist e) (s_limit st) = true) /\
+       (forall e, In e (all_edges x) -> less (edist e) (sub (r_dist r) err) = false)).
+  Proof.
+    intros Eq Et Er K. cbn. intros Efin.
+    assert (T0 : TestedOK st) by (intros e He; rewrite Et in He; contradiction).
+    pose proof (EI_init in_index st) as E0. rewrite Er in E0.
+    destruct (opt_spec (EI [] (s_limit st) in_index) (fun a s e Pe H => EI_madd [] (s_limit st) in_index a s e Pe H)
+                (fun s q H => H) cons avoid st Eq T0 E0 Efin) as (EIo & Dno & _ & _).
+    set (so := find_edges_optimized D ops o t x false brk cons avoid st) in *.
+    destruct (k1_result (s_limit st) in_index so K EIo Dno) as [Hnil Hne]. cbn in Hnil, Hne.
+    destruct (s_results so) as [|r0 l0] eqn:Ers.
+    - destruct (Hnil eq_refl) as [Eo Far]. rewrite Eo. split.
+      + split; [intros _ e He; apply Far, IndexOK; exact He|reflexivity].
+      + intros r [].
+    - destruct Hne as (hd & Eo & Hh & Opt); [discriminate|]. rewrite Eo. split.
+      + split; [discriminate|]. intros Far. exfalso.
+        destruct EIo as (So & _). destruct (So hd) as [[]|(e & Pe & _ & L)]; [rewrite Ers; exact Hh|].
+        rewrite (Far e (proj1 (IndexOK e) Pe)) in L. discriminate.
+      + intros r [<-|[]]. split.
+        * destruct EIo as (So & _). destruct (So hd) as [[]|(e & Pe & E & L)]; [rewrite Ers; exact Hh|].
+          exists e. split; [apply IndexOK; exact Pe|split; assumption].
+        * intros e He. apply Opt, IndexOK. exact He.
   Qed.
 End Opt.
